@@ -14,6 +14,7 @@
   full grid of 18 families × encodings × null patterns, by the family runner on the real code: PARTIAL.
 -/
 import VProofs.Lemmas.PandasL
+import VProofs.Obligations.PandasBagInfer
 import VModel.Generated.Typesets
 namespace V.C07
 open V V.Gen V.Pd
@@ -138,5 +139,152 @@ theorem C07_accepts_complex_as_float (c : Column) (hv : HasValue c) :
 /-! non-vacuity: integers carried as floats with a missing value in the middle -/
 example : floatIsInteger ⟨.fam .float, [Cell.ofFloat (.fin 12 0), Cell.missing .nan, Cell.ofFloat (.fin (-7) 0)], ["0", "1", "2"], "None"⟩
     = .ok true := by rfl
+
+/-! ### string encodings: the relation tests accept exactly the columns whose values the element parser accepts -/
+
+/-- a test under `series_handle_nulls` that is "every cell satisfies `P`" accepts exactly the columns whose non-missing
+cells all satisfy `P` (given at least one value) -/
+theorem handleNulls_iff {f : Column → R Bool} {P : Cell → Prop} (c : Column) (hv : HasValue c)
+    (hf : ∀ d : Column, d.dtype = c.dtype → (f d = .ok true ↔ ∀ x ∈ d.cells, P x)) :
+    handleNulls f c = .ok true ↔ ∀ x ∈ c.cells, x.null = false → P x := by
+  simp only [handleNulls]
+  have hde := dropna_nonempty_of_hasValue hv
+  by_cases hn : c.hasnans = true
+  · simp only [hn, if_true, hde, Bool.false_eq_true, if_false]
+    rw [hf c.dropna (dropna_dtype c)]
+    constructor
+    · intro h x hx hnull; exact h x (mem_dropna.mpr ⟨hx, hnull⟩)
+    · intro h x hx; exact h x (mem_dropna.mp hx).1 (mem_dropna.mp hx).2
+  · have hn' : c.hasnans = false := by simpa using hn
+    simp only [hn', Bool.false_eq_true, if_false]
+    rw [hf c rfl]
+    constructor
+    · intro h x hx _; exact h x hx
+    · intro h x hx; exact h x hx ((hasnans_false_iff c).mp hn' x hx)
+
+theorem firstRaise_none_iff_parser {α : Type} (cells : List Cell) (sel : StrFacts → Outcome α) (cls : String)
+    (p : Cell → Outcome α) (hp : ∀ x, p x = match x.str with | some f => sel f | none => Outcome.raises cls) :
+    firstRaise (cells.map p) = none ↔ ∀ x ∈ cells, ∃ f, x.str = some f ∧ (sel f).isOk = true := by
+  rw [firstRaise_none_iff]
+  constructor
+  · intro h x hx
+    obtain ⟨a, ha⟩ := h _ (List.mem_map_of_mem hx)
+    rw [hp x] at ha
+    cases hs : x.str with
+    | none => rw [hs] at ha; cases ha
+    | some f => rw [hs] at ha; simp only at ha; exact ⟨f, rfl, by rw [ha]; rfl⟩
+  · intro h v hv
+    obtain ⟨x, hx, rfl⟩ := List.mem_map.mp hv
+    obtain ⟨f, hf, hok⟩ := h x hx
+    rw [hp x]
+    simp only [hf]
+    cases hq : sel f with
+    | ok a => exact ⟨a, rfl⟩
+    | raises c => rw [hq] at hok; cases hok
+
+theorem firstRaise_some_mem {α : Type} {l : List (Outcome α)} {cls : String} (h : firstRaise l = some cls) :
+    Outcome.raises cls ∈ l := by
+  induction l with
+  | nil => cases h
+  | cons a l ih =>
+    cases a with
+    | ok v => simp only [firstRaise] at h; exact List.mem_cons_of_mem _ (ih h)
+    | raises c => simp only [firstRaise, Option.some.injEq] at h; subst h; exact List.mem_cons_self
+
+/-- **IP addresses as strings**: accepted iff `ip_address` parses every non-missing value -/
+theorem C07_accepts_string_ip (c : Column) (hv : HasValue c) :
+    stringIsIp c = .ok true ↔ ∀ x ∈ c.cells, x.null = false → ∃ f, x.str = some f ∧ f.ip.isOk = true := by
+  apply handleNulls_iff c hv
+  intro d _
+  constructor
+  · intro h
+    exact (firstRaise_none_iff_parser d.cells (·.ip) "ValueError" _ (fun _ => rfl)).mp
+      (guard_match_none h (fun cls => ite_ne_ok_true _ _)).1
+  · intro h
+    dsimp only
+    split
+    · rename_i cls hcls
+      obtain ⟨x, hx, hxr⟩ := List.mem_map.mp (firstRaise_some_mem hcls)
+      obtain ⟨f, hf, hok⟩ := h x hx
+      simp only [hf] at hxr
+      rw [hxr] at hok; cases hok
+    · rfl
+
+/-- **UUIDs as strings**: accepted iff `uuid.UUID` parses every non-missing value (and the strings are truthy) -/
+theorem C07_accepts_string_uuid (c : Column) (hv : HasValue c)
+    (htruthy : ∀ x ∈ c.cells, x.null = false → x.truth = .ok true) :
+    stringIsUuid c = .ok true ↔ ∀ x ∈ c.cells, x.null = false → ∃ f, x.str = some f ∧ f.uuid.isOk = true := by
+  constructor
+  · intro h x hx hn
+    obtain ⟨f, hf, hp⟩ := pred_uuid c h x hx hn
+    exact ⟨f, hf, by simpa [strPred] using hp⟩
+  · intro h
+    have key : ∀ d : Column, (∀ x ∈ d.cells, x ∈ c.cells ∧ x.null = false) →
+        (fun c : Column =>
+          let vs := c.cells.map (fun x => match x.str with | some f => f.uuid | none => Outcome.raises "AttributeError")
+          match firstRaise vs with
+          | some cls => if isA cls "ValueError" || isA cls "TypeError" || isA cls "AttributeError" then (.ok false : R Bool) else .error (escape cls)
+          | _ => seriesAll c) d = .ok true := by
+      intro d hd
+      dsimp only
+      split
+      · rename_i cls hcls
+        obtain ⟨x, hx, hxr⟩ := List.mem_map.mp (firstRaise_some_mem hcls)
+        obtain ⟨f, hf, hok⟩ := h x (hd x hx).1 (hd x hx).2
+        simp only [hf] at hxr
+        rw [hxr] at hok; cases hok
+      · simp only [seriesAll, Except.ok.injEq, List.all_eq_true]
+        intro x hx
+        rw [htruthy x (hd x hx).1 (hd x hx).2]
+    simp only [stringIsUuid, handleNulls]
+    have hde := dropna_nonempty_of_hasValue hv
+    by_cases hn : c.hasnans = true
+    · simp only [hn, if_true, hde, Bool.false_eq_true, if_false]
+      exact key c.dropna (fun x hx => mem_dropna.mp hx)
+    · have hn' : c.hasnans = false := by simpa using hn
+      simp only [hn', Bool.false_eq_true, if_false]
+      exact key c (fun x hx => ⟨hx, (hasnans_false_iff c).mp hn' x hx⟩)
+
+/-- **e-mail addresses as strings**: accepted iff `FQDA(*s.split('@', 1))` builds for every non-missing value (and the strings are truthy) -/
+theorem C07_accepts_string_email (c : Column) (hv : HasValue c)
+    (htruthy : ∀ x ∈ c.cells, x.null = false → x.truth = .ok true) :
+    stringIsEmail c = .ok true ↔ ∀ x ∈ c.cells, x.null = false → ∃ f, x.str = some f ∧ f.email.isOk = true := by
+  constructor
+  · intro h x hx hn
+    obtain ⟨f, hf, hp⟩ := pred_email c h x hx hn
+    exact ⟨f, hf, by simpa [strPred] using hp⟩
+  · intro h
+    have key : ∀ d : Column, (∀ x ∈ d.cells, x ∈ c.cells ∧ x.null = false) →
+        (fun c : Column =>
+          let vs := c.cells.map (fun x => match x.str with | some f => f.email | none => Outcome.raises "TypeError")
+          match firstRaise vs with
+          | some cls => if isA cls "ValueError" || isA cls "TypeError" || isA cls "AttributeError" then (.ok false : R Bool) else .error (escape cls)
+          | _ => seriesAll c) d = .ok true := by
+      intro d hd
+      dsimp only
+      split
+      · rename_i cls hcls
+        obtain ⟨x, hx, hxr⟩ := List.mem_map.mp (firstRaise_some_mem hcls)
+        obtain ⟨f, hf, hok⟩ := h x (hd x hx).1 (hd x hx).2
+        simp only [hf] at hxr
+        rw [hxr] at hok; cases hok
+      · simp only [seriesAll, Except.ok.injEq, List.all_eq_true]
+        intro x hx
+        rw [htruthy x (hd x hx).1 (hd x hx).2]
+    simp only [stringIsEmail, handleNulls]
+    have hde := dropna_nonempty_of_hasValue hv
+    by_cases hn : c.hasnans = true
+    · simp only [hn, if_true, hde, Bool.false_eq_true, if_false]
+      exact key c.dropna (fun x hx => mem_dropna.mp hx)
+    · have hn' : c.hasnans = false := by simpa using hn
+      simp only [hn', Bool.false_eq_true, if_false]
+      exact key c (fun x hx => ⟨hx, (hasnans_false_iff c).mp hn' x hx⟩)
+
+/-- **geometries as WKT strings**: accepted iff `wkt.loads` gives a truthy geometry for every non-missing value -/
+theorem C07_accepts_string_geometry (c : Column) (hv : HasValue c) :
+    stringIsGeometry c = .ok true ↔ ∀ x ∈ c.cells, x.null = false → wktTruthy x = true := by
+  apply handleNulls_iff c hv
+  intro d _
+  exact geomGo_iff _ d.cells
 
 end V.C07
